@@ -10,12 +10,14 @@ import (
 	"github.com/wollac/iota-crypto-demo/pkg/vrf"
 	"pgregory.net/rapid"
 
+	"verifharness/fc"
 	"verifharness/h"
 	"verifharness/ref/ed"
 	ref "verifharness/ref/vrf"
 )
 
 func TestMain(m *testing.M) {
+	h.FirstCallsChild(fc.VRF()) // never returns in a first-call child process
 	if err := ed.SelfCheck(); err != nil {
 		fmt.Println("VERIF-INFRA reference self-check failed:", err)
 		panic(err)
@@ -532,3 +534,6 @@ func FuzzGenVerify(f *testing.F) {
 func FuzzGenProve(f *testing.F) {
 	h.FuzzSub(f, h.Sub[proveCase]{Prop: "C18", Name: "prove", Gen: genProve, Check: checkProve})
 }
+
+// which public entry point is called first in a process (and by how many goroutines at once)
+func TestFirstCalls(t *testing.T) { h.FirstCallsSub(t, "C18", fc.VRF(), 6) }
